@@ -52,7 +52,7 @@ theorem umax_int_or_rune (ka kb : UK) (hka : ka = .int ∨ ka = .rune) (hkb : kb
   rcases hka with rfl | rfl <;> rcases hkb with rfl | rfl <;> simp [umax, Spec.ukRank]
 
 /-- `check.binaryExpr` on two untyped integer constants: a constant zero divisor is refused, otherwise both operands
-    take the later of the two kinds (the quotient too, since 4bcc5b4) -/
+    take the later of the two kinds (the quotient too, since 6f2f5cf) -/
 theorem checkBinaryY_uu (forced : Option Ty) (hf : ∀ f, forced = some f → f.isNumber = true)
     (a : Act) (ha : isArith a = true) (c0 c1 : NS)
     (ka kb : UK) (p q : Int) (hka : ka = .int ∨ ka = .rune) (hkb : kb = .int ∨ kb = .rune)
@@ -98,8 +98,8 @@ theorem checkBinaryY_uu (forced : Option Ty) (hf : ∀ f, forced = some f → f.
            BT.isInt, BT.isFloat, umax, Spec.ukRank, Expected.C03.checkFacts])
 
 /-- both operands untyped integer constants, whatever (numeric) type the context pushed down: the node stays untyped
-    (7973ebe), the quotient goes through the operand conversions like every other operator (4bcc5b4: `'a' / 2` is a
-    rune constant), the result is limited to 512 bits (b425d98) -/
+    (3f5ccd5), the quotient goes through the operand conversions like every other operator (6f2f5cf: `'a' / 2` is a
+    rune constant), the result is limited to 512 bits (eeab028) -/
 theorem binNodeY_uu (env : Env) (forced : Option Ty) (hf : ∀ f, forced = some f → f.isNumber = true)
     (a : Act) (ha : isArith a = true) (c0 c1 : NS)
     (ka kb : UK) (p q : Int) (hka : ka = .int ∨ ka = .rune) (hkb : kb = .int ∨ kb = .rune)
@@ -144,7 +144,7 @@ theorem binNodeY_post (env : Env) (a : Act) (c0 c1 : NS) :
   simp [binNodeY, postCheck, Expected.C03.checkFacts]
 
 /-- two operands of one integer type `k` (reflect values): the operation is recomputed exactly (`constExpr`,
-    5e2cd1c) — a zero divisor and a result that is not representable in `k` are compile errors — and the typed arm of
+    31bf1d3) — a zero divisor and a result that is not representable in `k` are compile errors — and the typed arm of
     the folding function then yields that exact result -/
 theorem postCheck_rr (env : Env) (a : Act) (ha : isArith a = true) (c0 c1 : NS) (k : IKind) (p q : Int)
     (h0ty : c0.ty = .t (.i k)) (h0rv : c0.rv = .r (.i k) (.int p)) (h1ty : c1.ty = .t (.i k)) (h1rv : c1.rv = .r (.i k) (.int q))
